@@ -411,6 +411,63 @@ fn described_spec(kind: &str, n: usize) -> Spec {
     }
 }
 
+/// The stream delivered through the other methods of `io::Write`: `flush` after every write,
+/// `write_all`, and gathered writes (`write_vectored` over the remaining chunks, advancing by
+/// the count it returns).  "Any way of cutting it into successive write calls" includes these.
+fn run_partition_via(spec: &Spec, cuts: &[usize], mode: u8) -> Option<Violation> {
+    use std::io::IoSlice;
+    let n = spec.bytes.len();
+    let mut pts: Vec<usize> = vec![0];
+    pts.extend(cuts.iter().copied().filter(|q| *q > 0 && *q < n));
+    pts.push(n);
+    pts.dedup();
+    let via = ["flush after every write", "write_all", "write_vectored"][mode as usize];
+    let case = || json!({"stream": bytes_json(&spec.bytes), "cuts": cuts, "via": via, "name": spec.name, "canonical": spec.canonical});
+    let r = guard(|| -> Result<SummaryStream, String> {
+        let mut s = SummaryStream::new();
+        match mode {
+            0 => {
+                for w in pts.windows(2) {
+                    let k = s.write(&spec.bytes[w[0]..w[1]]).map_err(|e| format!("write: {}", e))?;
+                    if k != w[1] - w[0] {
+                        return Err(format!("write consumed {} of {} bytes", k, w[1] - w[0]));
+                    }
+                    s.flush().map_err(|e| format!("flush: {}", e))?;
+                }
+            }
+            1 => {
+                for w in pts.windows(2) {
+                    s.write_all(&spec.bytes[w[0]..w[1]]).map_err(|e| format!("write_all: {}", e))?;
+                }
+            }
+            _ => {
+                // all chunks offered at once; what is not taken is offered again
+                let mut pos = 0;
+                let mut guard_rounds = 0;
+                while pos < n {
+                    let slices: Vec<IoSlice> = pts.windows(2).filter(|w| w[1] > pos).map(|w| IoSlice::new(&spec.bytes[w[0].max(pos)..w[1]])).collect();
+                    let k = s.write_vectored(&slices).map_err(|e| format!("write_vectored: {}", e))?;
+                    if k == 0 || k > n - pos {
+                        return Err(format!("write_vectored returned {} with {} bytes offered", k, n - pos));
+                    }
+                    pos += k;
+                    guard_rounds += 1;
+                    if guard_rounds > n + 2 {
+                        return Err("write_vectored makes no progress".into());
+                    }
+                }
+            }
+        }
+        s.flush().map_err(|e| format!("flush: {}", e))?;
+        Ok(s)
+    });
+    match r {
+        Err(m) => Some(Violation::new("via", case(), json!("returns"), json!(format!("panic: {}", m)), "a Write method panicked")),
+        Ok(Err(e)) => Some(Violation::new("via", case(), json!("every call succeeds"), json!(e), "a well-formed stream was refused")),
+        Ok(Ok(s)) => final_check(spec, &s).map(|(note, exp, obs)| Violation::new("via", case(), exp, obs, &note)),
+    }
+}
+
 /// Writes that go on after a failed write: no panic (the statement says nothing else about them).
 fn after_failure(spec: &Spec, q: usize) -> Option<Violation> {
     let r = guard(|| {
@@ -438,6 +495,12 @@ fn replay(doc: &Value) -> Option<Violation> {
             v.case = c.clone();
             v
         });
+    }
+    if doc["kind"] == "via" {
+        let bytes = unhex(c["stream"]["hex"].as_str().unwrap_or(""));
+        let spec = derived_spec(c["name"].as_str().unwrap_or("replay"), bytes, c["canonical"].as_bool().unwrap_or(true));
+        let mode = match c["via"].as_str() { Some("write_all") => 1, Some("write_vectored") => 2, _ => 0 };
+        return run_partition_via(&spec, &cuts_of(c), mode);
     }
     if doc["kind"] == "after-failure" {
         let bytes = unhex(c["stream"]["hex"].as_str().unwrap_or(""));
@@ -499,6 +562,35 @@ fn main() {
         }
     }
     run.bound(format!("{} malformed streams (bad entry position x fault kind), complete graph each", bad.len()));
+    // the other methods of io::Write: every single cut and every pair of cuts of S1, every single cut
+    // of S2, each delivered with a flush after every write, through write_all, and as gathered writes
+    {
+        run.bound("Write-trait methods: S1 with every <= 2 cuts, S2 with every single cut, x {flush after every write, write_all, write_vectored over the remaining chunks}");
+        for (spec, maxcuts) in [(&s1, 2usize), (&s2, 1usize)] {
+            let n = spec.bytes.len();
+            let firsts: Vec<usize> = (0..n).collect();
+            par_items(&run, "C09 Write-trait methods", &firsts, |_, a, t| {
+                let mut cutsets: Vec<Vec<usize>> = vec![if *a == 0 { vec![] } else { vec![*a] }];
+                if maxcuts >= 2 && *a > 0 {
+                    for b in *a + 1..n {
+                        cutsets.push(vec![*a, b]);
+                    }
+                }
+                for cuts in cutsets {
+                    for mode in 0..3u8 {
+                        t.evals += 1;
+                        t.validated += 1;
+                        t.states += 1;
+                        t.transitions += cuts.len() as u64 + 1;
+                        match run_partition_via(spec, &cuts, mode) {
+                            None => t.outcome("via/ok"),
+                            Some(v) => t.violation(v),
+                        }
+                    }
+                }
+            });
+        }
+    }
     // (the small families first: a wall-clock budget reached on a slow machine then cuts the tail of
     // the big graphs, never a whole family)
     // a collector that is written to again after a failed write must not panic: for each malformed
